@@ -2,6 +2,7 @@ package dsim
 
 import (
 	"fmt"
+	"github.com/fiorix/go-diameter/v4/diam/sm"
 	"net"
 
 	"github.com/fiorix/go-diameter/v4/diam/dict"
@@ -87,6 +88,7 @@ func loadAppTable() (map[appKey]bool, error) {
 		// the harness's own extra dictionary (see init below)
 		tab[appKey{9001, "auth"}] = true
 		tab[appKey{9001, "acct"}] = true
+		tab[appKey{9002, "auth"}] = true
 		if len(tab) < 3 {
 			appTableErr = fmt.Errorf("application table: only %d entries parsed from default.go", len(tab))
 			return
@@ -103,9 +105,21 @@ const extraDictXML = `<?xml version="1.0" encoding="UTF-8"?>
   <application id="9001" type="acct" name="Sim Dual Acct"></application>
 </diameter>`
 
+// A dictionary loaded after the process has already created a state machine.
+const lateDictXML = `<?xml version="1.0" encoding="UTF-8"?>
+<diameter>
+  <application id="9002" type="auth" name="Sim Late Auth"></application>
+</diameter>`
+
 func init() {
 	if err := dict.Default.Load(strings.NewReader(extraDictXML)); err != nil {
 		panic("extra dictionary: " + err.Error())
+	}
+	// an application may create a state machine, load another dictionary later and create
+	// further state machines: those know the applications of both
+	_ = sm.New(&sm.Settings{OriginHost: "early.dsim.example", OriginRealm: "dsim.example", VendorID: 13, ProductName: "early"})
+	if err := dict.Default.Load(strings.NewReader(lateDictXML)); err != nil {
+		panic("late dictionary: " + err.Error())
 	}
 }
 
@@ -278,7 +292,7 @@ func (s cerSpec) msg(host, realm string) RefMsg {
 
 // id classes for generated entries
 var (
-	idsAuthOK  = []uint32{4, 1, 16777251, 9001}
+	idsAuthOK  = []uint32{4, 1, 16777251, 9001, 9002}
 	idsAcctOK  = []uint32{3, 9001}
 	idsUnknown = []uint32{999, 16777000, 77}
 )
@@ -287,10 +301,10 @@ var (
 func drawEntry(t *Tape) appEntry {
 	kind := []string{"auth", "acct", "vs-auth", "vs-acct"}[t.Draw(4)]
 	en := appEntry{kind: kind, vendorFirst: t.Chance(1, 2)}
-	en.id = entryID(en.typ(), t.Draw(4), t.Draw(4))
+	en.id = entryID(en.typ(), t.Draw(4), t.Draw(5))
 	if strings.HasPrefix(kind, "vs-") && t.Chance(1, 4) {
 		en.typ2 = []string{"auth", "acct"}[t.Draw(2)]
-		en.id2 = entryID(en.typ2, t.Draw(4), t.Draw(4))
+		en.id2 = entryID(en.typ2, t.Draw(4), t.Draw(5))
 	}
 	return en
 }
